@@ -180,6 +180,12 @@ def after_scan(ex, idx, op, obs, C, raw, pre_cache, pre_class):
         else:
             monitor_c07(ex, idx, F, json.dumps(F).encode(), "reference scan")
             nC, nF = O.norm_report(C, w.root), O.norm_report(F, w.root)
+            # identifier and timestamp may differ in value, not in kind
+            odd = [k for k in ("uuid", "timestamp", "version") if type(C.get(k)) is not type(F.get(k))]
+            if odd:
+                tag = "C10" if pending else ("C06" if wl == "C06" else "C09")
+                ex.add(violation(tag, "identifier_fields_well_formed", "fields %s have another JSON kind than in a from-scratch report: %s"
+                                 % (odd, {k: C.get(k) for k in odd}), idx, pending=pending))
             if nC != nF:
                 tag = "C10" if pending else ("C06" if wl == "C06" else "C09")
                 name = {"C10": "scan_after_fault_equals_fresh", "C09": "cached_equals_fresh",
